@@ -35,7 +35,7 @@ var c13Names = map[string]bool{"GET": true, "POST": true, "PUT": true, "PATCH": 
 
 var c13Tokens = []string{"/", "a", ".", "{", "}", "[", "]", ":", "(", ")", "?:", `\d+`, "x", "*", "|"}
 
-var c13SpecialPaths = []string{"", " ", "/", "//", "/a", "/a/", "/a/1", "/a.b", "/\xff\xfe", "/{id", strings.Repeat("a", 2048), "/a/x/1", "/x", "/ax", "/12", "/a/12"}
+var c13SpecialPaths = []string{"", " ", "/", "//", " /", "/ ", " / ", "\t/\n", "/ /", " //", "a/ ", "/a/ ", " a", "/a", "/a/", "/a/1", "/a.b", "/\xff\xfe", "/{id", strings.Repeat("a", 2048), "/a/x/1", "/x", "/ax", "/12", "/a/12"}
 var c13SpecialMethods = []string{"get", "", "FOO", "\xff", "HEAD", "POST"}
 
 var c13ShortPaths = func() []string {
